@@ -31,7 +31,7 @@ def _flops(em):
 
 def r17a(model, ctx):
     R = "R-17a"
-    fn = model.func(f"{CDC}::FFSynchronizer.elaborate")
+    fn = model.func_expanded(f"{CDC}::FFSynchronizer.elaborate", depth=3)
     em = ElabModel(fn)
     fl = _flops(em)
     ok = unparse(fl.generators[0].iter) == "range(self._stages)" and not fl.generators[0].ifs
@@ -72,7 +72,7 @@ def r17a(model, ctx):
 
 def r17b(model, ctx):
     R = "R-17b"
-    fn = model.func(f"{CDC}::AsyncFFSynchronizer.elaborate")
+    fn = model.func_expanded(f"{CDC}::AsyncFFSynchronizer.elaborate", depth=3)
     em = ElabModel(fn)
     t = unparse(fn)
     ok = "m.domains += ClockDomain('async_ff', async_reset=True)" in t
@@ -114,7 +114,7 @@ def r17b(model, ctx):
         "self._edge = async_edge" in t and "self._stages = stages" in t and "self._o_domain = o_domain" in t
     ctx.check(ok, R, "AsyncFFSynchronizer.__init__", "1-bit i/o, edge in {pos,neg}, stages validated, parameters stored",
               "AsyncFFSynchronizer.__init__ must validate widths, edge and stages and store them unchanged", f"{CDC}:{fi.lineno}")
-    fr = model.func(f"{CDC}::ResetSynchronizer.elaborate")
+    fr = model.func_expanded(f"{CDC}::ResetSynchronizer.elaborate", depth=3)
     ok = any(pmatch("AsyncFFSynchronizer(self.arst, ResetSignal(self._domain), o_domain=self._domain, stages=self._stages, "
                     "max_input_delay=self._max_input_delay)", n) is not None for n in ast.walk(fr))
     ctx.check(ok, R, "ResetSynchronizer.elaborate", "AsyncFFSynchronizer(arst -> ResetSignal(domain)) in that domain",
@@ -130,7 +130,7 @@ def r17b(model, ctx):
 
 def r17c(model, ctx):
     R = "R-17c"
-    fn = model.func(f"{CDC}::PulseSynchronizer.elaborate")
+    fn = model.func_expanded(f"{CDC}::PulseSynchronizer.elaborate", depth=3)
     em = ElabModel(fn)
     a = [x for x in em.assigns if x.target_text == "i_toggle"]
     ok = len(a) == 1 and a[0].domain == "self._i_domain" and unparse(a[0].rhs) == "i_toggle ^ self.i"
